@@ -139,6 +139,15 @@ def runDet : P Verdict := do
     check same "a synthesis call changed the engine's observable settings" ]
   pure { corr := none, oracle := orc, nontriv := overlaps > 0, cls := s!"{kind}:k{k}" }
 
+/-- `clones n waves stateDiffs waveDiffs firstBadVolume`: copies of an engine (clone, `Engine::new` from the parts) under
+    `n` random settings -/
+def runClones : P Verdict := do
+  let n ← nat; let waves ← nat; let sd ← nat; let wd ← nat; let v ← flt
+  let orc := firstSome [
+    check (wd == 0) s!"a copy of the engine (clone / Engine::new from its parts) synthesizes a different waveform at volume {v} dB ({wd} of {waves} waveforms compared)",
+    check (sd == 0) s!"a copy of the engine (clone / Engine::new from its parts) holds different settings than the original, first at volume {v} dB ({sd} of {n} settings)" ]
+  pure { corr := none, oracle := orc, nontriv := n > 0, cls := "clones" }
+
 def runHist : P Verdict := do
   let kind ← next
   let g ← boolTok; let w ← boolTok
